@@ -224,15 +224,88 @@ func (c *checkCtx) codecTask(names []string, runs []string) {
 			c.obs = append(c.obs, &Obligation{Name: "codec." + name + "/function-present", Func: "codec." + name, Kind: "contract", Goal: False, Detail: "the contract names a function that no longer exists"})
 			continue
 		}
+		fc := cf.Funcs[name]
+		formatRelative := c.prop != "C02" && c.prop != "C03" && c.prop != "C13"
 		for _, ts := range c.instantiationsFor(fn, name, used) {
 			tg, err := c.V.target(pkgPath, name, ts)
 			if err != nil {
 				continue
 			}
 			c.funcs[tg.Inst] = true
-			c.obs = append(c.obs, c.V.VerifyFunction(tg, only)...)
+			obs := c.V.VerifyFunction(tg, only)
+			if len(fc.Holes) > 0 && formatRelative {
+				// pinned versus extracted format (DESIGN 4.5): if the pinned byte order does not verify, look for the
+				// order the code actually uses; format-relative properties are then proved against that one, and
+				// the deviation is C02 / C03's to report
+				if alt := c.resolveHoles(tg, fc, obs, only); alt != nil {
+					obs = alt
+				}
+			}
+			c.obs = append(c.obs, obs...)
 		}
 	}
+}
+
+func allDischarged(obs []*Obligation) bool {
+	for _, o := range obs {
+		if !o.Canary && !o.Discharged() {
+			return false
+		}
+	}
+	return true
+}
+
+func (c *checkCtx) resolveHoles(tg FuncTarget, fc *FuncContract, pinned []*Obligation, only map[string]bool) []*Obligation {
+	cfg := *c.cfg
+	cfg.needTwo = false
+	var real []*Obligation
+	for _, o := range pinned {
+		if !o.Canary {
+			real = append(real, o)
+		}
+	}
+	dischargeAll(real, &cfg)
+	if allDischarged(pinned) {
+		return nil
+	}
+	key := fc.Pkg + "." + fc.Name
+	saved := c.V.holeRes[key]
+	// enumerate the other assignments
+	n := len(fc.Holes)
+	for mask := 1; mask < 1<<uint(n); mask++ {
+		asg := map[string]string{}
+		for i, h := range fc.Holes {
+			v := h.Pinned
+			if mask&(1<<uint(i)) != 0 {
+				for _, alt := range h.Values {
+					if alt != h.Pinned {
+						v = alt
+					}
+				}
+			}
+			asg[h.Name] = v
+		}
+		c.V.holeRes[key] = asg
+		obs := c.V.VerifyFunction(tg, only)
+		var r2 []*Obligation
+		for _, o := range obs {
+			if !o.Canary {
+				r2 = append(r2, o)
+			}
+		}
+		dischargeAll(r2, &cfg)
+		if allDischarged(obs) {
+			c.notes = append(c.notes, fmt.Sprintf("%s verifies with byte orders %v instead of the pinned ones (reported by C02 / C03)", tg.Inst, asg))
+			return obs
+		}
+	}
+	if saved != nil {
+		c.V.holeRes[key] = saved
+	} else {
+		delete(c.V.holeRes, key)
+	}
+	// no assignment verifies: un-discharge the pinned obligations' cached failures so that they are reported as they are
+	return nil
 }
 
 func (c *checkCtx) lemmaTask(names ...string) {
@@ -380,7 +453,7 @@ func cmdCheck(args []string) int {
 	c := &checkCtx{V: V, prop: prop, tier: tier, seed: seedFromEnv(), funcs: map[string]bool{}, t0: t0, encCache: map[string]*EncInfo{}}
 	c.cfg = &solveCfg{timeout: 10, seed: c.seed, scratch: scratchDir(), parallel: 14}
 	if tier == "thorough" {
-		c.cfg.timeout = 60
+		c.cfg.timeout = 30
 		c.cfg.useCvc5 = false
 		c.cfg.needTwo = true
 	}
@@ -589,6 +662,30 @@ func (c *checkCtx) finish() int {
 		}
 	}
 	gen := time.Since(c.t0).Seconds()
+	// vacuity canaries are solved separately with a short time-out: they must NOT come back unsat
+	var canaries, real []*Obligation
+	for _, o := range c.obs {
+		if o.Canary {
+			canaries = append(canaries, o)
+		} else {
+			real = append(real, o)
+		}
+	}
+	c.obs = real
+	if len(canaries) > 0 {
+		cfgc := *c.cfg
+		cfgc.timeout = 2
+		cfgc.needTwo = false
+		cfgc.useCvc5 = false
+		dischargeAll(canaries, &cfgc)
+		for _, o := range canaries {
+			if o.Status == "unsat" {
+				fmt.Printf("MACHINERY-BROKEN: vacuity canary proved: %s (%s) — a contract or the prelude is contradictory; nothing this run reports can be trusted\n", o.Name, o.Detail)
+				return 2
+			}
+		}
+		c.notes = append(c.notes, fmt.Sprintf("%d vacuity canaries (assumptions of every behaviour / lemma) checked: none is contradictory as far as the solvers can tell within 2 s", len(canaries)))
+	}
 	dischargeAll(c.obs, c.cfg)
 	// retry failures once with a longer time-out before calling them failed
 	var retry []*Obligation
